@@ -47,7 +47,7 @@ I2 ==
 
 (* I3: spellings.  One or two rules per side from a wider pool in which neighbouring rules differ in *)
 (* one feature only (port, prefix length, negation, mask of a mark, state list, protocol number)      *)
-PoolX == Pool \cup {Rule("tcp8080", "ACCEPT"), Rule("tcp80net", "ACCEPT"), Rule("tcp80h0", "ACCEPT"), Rule("sport", "ACCEPT"),
+PoolX == Pool \cup {Rule("tcp8000", "ACCEPT"), Rule("udp1024y", "ACCEPT"), Rule("tcp8080", "ACCEPT"), Rule("tcp80net", "ACCEPT"), Rule("tcp80h0", "ACCEPT"), Rule("sport", "ACCEPT"),
                     Rule("lowports", "ACCEPT"), Rule("udp1024x", "ACCEPT"), Rule("vrrp", "ACCEPT"), Rule("proto113", "ACCEPT"),
                     Rule("icmp8", "ACCEPT"), Rule("icmp0", "ACCEPT"), Rule("state1", "ACCEPT"), Rule("possrc", "DROP"),
                     Rule("negold", "DROP"), Rule("markhex", "MARK"), Rule("markmask", "MARK"), Rule("loginfo", "LOG"),
@@ -62,9 +62,12 @@ M1 ==
   \E v4 \in InjSeqs({Rule("tcp80", "ACCEPT"), Rule("state", "ACCEPT"), Rule("drop", "DROP"), Rule("negsrc", "DROP")}, MaxLen),
      pre \in InjSeqs({Rule("udprange", "ACCEPT"), Rule("loglevel", "LOG"), Rule("mark", "MARK")}, 3),
      app \in InjSeqs({Rule("nosyn", "ACCEPT"), Rule("rawdrop", "DROP")}, 2),
-     xc, xt \in BOOLEAN :        \* the raw file also defines a chain / a table of its own
+     xc \in BOOLEAN,             \* the raw file also defines a chain of its own
+     xt \in {"none", "rawonly", "both"} :   \* ... a second table (behind the filter table, no COMMIT) that only it / that Netspoc has too
     /\ dev = Cfg({}, NoFn)
-    /\ tgt = [routes |-> {}, tables |-> [filter |-> [INPUT |-> Chain("DROP", v4)]],
+    /\ tgt = [routes |-> {}, tables |-> (IF xt = "both" THEN [filter |-> [INPUT |-> Chain("DROP", v4)],
+                                                              mangle |-> [PREROUTING |-> Chain("ACCEPT", <<Rule("mark", "MARK")>>)]]
+                                         ELSE [filter |-> [INPUT |-> Chain("DROP", v4)]]),
               parts |-> [v4 |-> v4, v6 |-> <<>>, pre |-> pre, app |-> app, xchain |-> xc, xtable |-> xt]]
 
 Init == CASE Fam = "I3" -> I3 [] Fam = "R1" -> R1 [] Fam = "I1" -> I1 [] Fam = "I2" -> I2 [] Fam = "M1" -> M1
